@@ -9,8 +9,6 @@ import "gopkg.in/yaml.v3"
 // A *place* is (line, column), both 1-based. Column len(line)+1 is the pseudo-column of the line break that ends
 // the line (that is where NewPositionRange puts the ' ' / '\n' a folded or literal line break stands for).
 
-type verifPt struct{ line, col int }
-
 func verifB2I(b bool) int {
 	if b {
 		return 1
